@@ -10,8 +10,8 @@ DROP_BUILDERS = ["DropQueryBuilder", "MySQLDropQueryBuilder", "SnowflakeDropQuer
 SETOPS = ["union", "union_all", "intersect", "except_of", "minus"]
 HOWS = ["inner", "left", "right", "outer", "left_outer", "right_outer", "full_outer", "cross", "hash"]
 WINDOW_FUNCS = ["Sum", "Avg", "Min", "Max", "Count", "FirstValue", "LastValue", "StdDev", "StdDevPop", "Variance", "VarSamp"]
-NOISE_Q = ["where", "orderby", "limit", "offset", "distinct", "set", "having", "for_update", "prewhere", "force_index"]
-NOISE_C = ["unique", "if_not_exists", "period_for", "with_system_versioning", "unlogged"]
+NOISE_Q = ["where", "orderby", "limit", "offset", "distinct", "having", "for_update", "prewhere", "force_index"]
+NOISE_C = ["unique", "if_not_exists", "period_for", "with_system_versioning"]
 
 
 def render(o):
@@ -124,6 +124,8 @@ def do_qcall(q, call, objs):
         return q.columns(*call[1])
     if k == "insert":
         return q.replace(*call[1]) if (len(call) > 2 and call[2]) else q.insert(*call[1])
+    if k == "set":
+        return q.set("sv", 1)
     if k == "groupby":
         return q.groupby(*[Field("g%d" % i) for i in range(call[1])])
     if k == "rollup":
@@ -183,8 +185,6 @@ def do_qcall(q, call, objs):
             return q.offset(2)
         if n == "distinct":
             return q.distinct()
-        if n == "set":
-            return q.set("ns", 1)
         if n == "having":
             return q.having(Field("nh") > 1)
         if n == "for_update":
@@ -281,6 +281,8 @@ def do_ccall(b, call, objs):
         return b.local()
     if k == "preserve_rows":
         return b.preserve_rows()
+    if k == "unlogged":
+        return b.unlogged()
     if k == "noise":
         n = call[1]
         if n == "unique":
@@ -291,8 +293,6 @@ def do_ccall(b, call, objs):
             return b.period_for("p", "s", "e")
         if n == "with_system_versioning":
             return b.with_system_versioning()
-        if n == "unlogged":
-            return b.unlogged()
     raise ValueError(call)
 
 
